@@ -9,9 +9,12 @@ ASSUMPTIONS = [
     "WF P (unique task ids, a task lists a product once, module files are not products) is a hypothesis of C03_repeat",
     "generated projects also contain symlinked inputs, DirectoryNode products next to file products and a constant hashed PythonNode dependency "
     "(tuple with str and Path); successive builds of one history run in fresh processes under different PYTHONHASHSEEDs",
+    "generated projects also pass some dependencies inside one dict / list / tuple argument together with plain values; some task modules live in "
+    "sub-directories with a section-less pyproject.toml and histories mix builds of the whole project with builds of one sub-directory "
+    "(model: the project restricted to the tasks collected there, same world)",
 ]
 EDITS = ["touch", "touch", "rewrite_same", "rewrite_same", "write", "revert", "bump", "revert_module", "tamper", "delete_product", "add_task"]
-CFGS = [{}, {}, {}, {"k": "task_t00x"}, {"k": "task_t01x or task_t02x"}, {"dry": True}, {"force": True}]
+CFGS = [{}, {}, {}, {"k": "task_t00x"}, {"k": "task_t01x or task_t02x"}, {"dry": True}, {"force": True}, {"sub": "?"}, {"sub": "?"}]
 
 
 def oracle(hist, records):
@@ -33,7 +36,7 @@ def oracle(hist, records):
             bad.append(("repeat", f"immediately repeated build executed {engine.executed(obs)}", None))
         if not cfg.get("dry"):
             tr.update(rec)
-        plain = not any(cfg.get(k) for k in ("dry", "k", "m", "maxfail"))
+        plain = not any(cfg.get(k) for k in ("dry", "k", "m", "maxfail", "sub"))
         prev_quiet_expected = plain and obs["exit"] == 0 and not engine.user_skipped_closure(spec)
     return bad
 
@@ -42,7 +45,7 @@ def histories(ctx):
     rng = ctx.rng
     hs = []
     for i in range(ctx.scale(70, 800)):
-        spec = engine.gen_spec(rng, nt=(2, 7), after_p=0.2, after_needs_prods=True, link_p=0.3, dirprod_p=0.3, hashed_p=0.25)
+        spec = engine.gen_spec(rng, nt=(2, 7), after_p=0.2, after_needs_prods=True, link_p=0.3, dirprod_p=0.3, hashed_p=0.25, bag_p=0.3, subdir_p=0.35)
         h = histgen.random_history(rng, spec, rng.randint(4, 10), EDITS, CFGS, final_build={})
         h["steps"] = [["build", {}]] + h["steps"] + [["build", {}]]
         hs.append(h)
